@@ -156,7 +156,7 @@ def record_samples(pa, rng, count, rep):
                        "gt": [[[fx(u.segment.start), fx(u.segment.end), labs[u.annotation]] for u in ref[a]] for a in gta],
                        "sample": [[[fx(u.segment.start), fx(u.segment.end), labs[u.annotation]] for u in smp[a]]
                                   for a in sorted(smp.annotators, key=lambda s: int(s.split()[-1]) if s.split()[-1].isdigit() else 0)],
-                       "uniforms": [fx(x) for x in draws]}
+                       "uniforms": [int(__import__("math").floor(float(x) * K)) for x in draws]}      # floor: int(x) <= x < int(x) + 1 stays exact
                 # int pivots on a reference whose times are exact in 1/1000: the arithmetic is exact, no tolerance (ties at the
                 # upper bound are then decided, not don't-care)
                 vals = [lo, hi] + [x for a in gta for u in ref[a] for x in (u.segment.start, u.segment.end)]
